@@ -21,7 +21,7 @@ class FalsyPy27(rec.Py27):
 
 UNSUCCESSFUL = ("addError", "addFailure", "addUnexpectedSuccess")
 FINAL_STATES = ("exists", "xfail", "uxsuccess", "success", "fail", "skip", "unknown")
-DECORATORS = ("skip_method", "skipIf_method", "skipUnless_method", "skipIf_false", "skip_class", "xfail_decorator", "skip_empty_reason", "skipIf_empty_reason", "unittest_skip_bare", "run_test_with_default", "skip_nonstr_reason", "skip_surrogate_reason")
+DECORATORS = ("skip_method", "skipIf_method", "skipUnless_method", "skipIf_false", "skip_class", "xfail_decorator", "skip_empty_reason", "skipIf_empty_reason", "unittest_skip_bare", "run_test_with_default", "skip_nonstr_reason", "skip_surrogate_reason", "skip_none_reason")
 
 
 def make_result(flavour):
